@@ -549,6 +549,8 @@ func runMapProgram(e *mapEnv, nOps, mode, valProf, opProf int) {
 					e.violation("C12", "VerifyMap: "+err.Error())
 				}
 			}
+			// C09: one live map, everything handed back has been disposed of: exactly its slabs remain
+			e.health()
 		}
 	}
 	e.st.Ops += nOps
